@@ -7,6 +7,7 @@ Driver for C11.
 * `C11 wait <pipefail 0|1> <bang 0|1> <code>…` → `<status> <c1,c2,…>`
 * `C11 strip <esc text>` → `<esc stripped>`
 * `C11 cstat <prior> <a|c<st>> <code>…` → `$?` after an assignment-only command / a command with substitutions
+* `C11 rops <esc text> <op>…` → values of the consumers `l`/`d:<c>`/`n<k>`/`m` and what is left
 * `C11 read <k> <esc text>` → `<esc line1> … <esc linek> <esc rest>`
 -/
 namespace BrushVerif.Drv.C11
@@ -92,6 +93,20 @@ def handle (toks : List Str) : Str :=
       let r := readLines k (unesc t)
       joinWith [' '] (r.1.map esc ++ [esc r.2])
     | none => "bad-read".toList
+  | ['r','o','p','s'] :: t :: ops =>
+    -- `C11 rops <esc text> <op>…` with `<op>` = `l` | `d:<esc char>` | `n<k>` | `m` → `<esc value>… <esc rest>`
+    let parseOp : Str → Option ReadOp := fun o =>
+      match o with
+      | ['l'] => some (.line '\n')
+      | ['m'] => some .mapfile1
+      | 'd' :: ':' :: r => (match unesc r with | [c] => some (.line c) | _ => none)
+      | 'n' :: r => (parseNat? r).map .nchars
+      | _ => none
+    match ops.mapM parseOp with
+    | some ops =>
+      let r := runOps ops (unesc t)
+      joinWith [' '] (r.1.map (fun p => esc p.value) ++ [esc r.2])
+    | none => "bad-rops".toList
   | ['c','s','t','a','t'] :: prior :: kind :: cs =>
     -- `C11 cstat <prior $?> <a | c<status>> <substitution status>…` → `$?` afterwards
     match parseNat? prior, cs.mapM parseNat? with
